@@ -1337,6 +1337,11 @@ ldb_versions_apply(ldb_versions_t *vset, ldb_edit_t *edit, ldb_mutex_t *mu) {
   ldb_edit_set_next_file(edit, vset->next_file_number);
   ldb_edit_set_last_sequence(edit, vset->last_sequence);
 
+  LCDB_EV(("ApplyStart", "\"nextfile\":%lu,\"lastseq\":%lu,\"log\":%lu",
+           (unsigned long)vset->next_file_number,
+           (unsigned long)vset->last_sequence,
+           (unsigned long)vset->log_number));
+
   v = ldb_version_create(vset);
 
   {
